@@ -972,6 +972,7 @@ c_status_t MMUnflattenMessage(MMessage * msg, const void * inBuf, uint32 inputBu
             {
                MByteBuffer ** bufs;
                numItems = B_LENDIAN_TO_HOST_INT32(numItems);
+               if (numItems > ((eLength-sizeof(uint32))/sizeof(uint32))) return CB_ERROR;  /* every item needs at least its length-prefix, so don't allocate an array the buffer can't possibly fill */
                bufs = PutMMVariableFieldAux(msg, MFalse, tc, fieldName, numItems);
                if (bufs)
                {
